@@ -220,14 +220,33 @@ struct SubH {
     sub: Option<Subscriber<Val>>,
     cw: Arc<CountWaker>,
     waker: Waker,
+    /// wakers this subscriber was polled with earlier (a task may be polled with a fresh waker each
+    /// time); their wakes count too, but the one supplied to the LATEST Pending poll must be woken
+    old: Vec<Arc<CountWaker>>,
     seen: usize,
+    seen_cur: usize,
+    /// the LATEST poll answered Pending (with the current waker) and no wake was seen since
+    cur_pending: bool,
     registered: bool, // last poll answered Pending and no wake seen since
+}
+
+impl SubH {
+    fn total_wakes(&self) -> usize {
+        self.cw.0.load(AO::SeqCst) + self.old.iter().map(|c| c.0.load(AO::SeqCst)).sum::<usize>()
+    }
+    /// from now on this subscriber is polled with a new waker
+    fn fresh_waker(&mut self) {
+        let cw = Arc::new(CountWaker(AtomicUsize::new(0)));
+        self.waker = Waker::from(cw.clone());
+        self.old.push(std::mem::replace(&mut self.cw, cw));
+        self.seen_cur = 0;
+    }
 }
 
 fn new_subh(s: Subscriber<Val>) -> SubH {
     let cw = Arc::new(CountWaker(AtomicUsize::new(0)));
     let waker = Waker::from(cw.clone());
-    SubH { sub: Some(s), cw, waker, seen: 0, registered: false }
+    SubH { sub: Some(s), cw, waker, old: vec![], seen: 0, seen_cur: 0, cur_pending: false, registered: false }
 }
 
 pub fn run_line(line: &str, out: &mut String) {
@@ -486,15 +505,26 @@ pub fn run_line(line: &str, out: &mut String) {
         };
         // ---- wakes ----
         let mut wk = vec![];
+        let mut stale_waker = false;
         for (k, s) in subs.iter_mut().enumerate() {
-            let n = s.cw.0.load(AO::SeqCst);
+            let n = s.total_wakes();
             if n > s.seen {
                 wk.push(format!("{}x{}", k, n - s.seen));
                 s.seen = n;
+                // C02: "wakes the waker supplied to that Pending poll" - the latest one
+                let cur = s.cw.0.load(AO::SeqCst);
+                if s.cur_pending && cur == s.seen_cur {
+                    stale_waker = true;
+                }
+                s.seen_cur = cur;
+                s.cur_pending = false;
                 s.registered = false;
             }
         }
         let mut line = text.clone();
+        if stale_waker {
+            line.push_str(" ok:wake=0");
+        }
         if !wk.is_empty() {
             line.push_str(&format!(" w{}", wk.join(",")));
         }
@@ -551,6 +581,10 @@ fn sub_op(name: &str, a: &[u32], subs: &mut Vec<SubH>, turn: usize) -> String {
     let k = a[0] as usize;
     match name {
         "poll" => {
+            // every fourth call position: the task polls with a fresh waker
+            if turn % 4 == 3 {
+                subs[k].fresh_waker();
+            }
             // the three equivalent ways of polling a subscriber once: the Stream impl, the `Next`
             // future returned by next(), the future of next_ref() (value copied, guard dropped)
             let waker = subs[k].waker.clone();
@@ -567,6 +601,7 @@ fn sub_op(name: &str, a: &[u32], subs: &mut Vec<SubH>, turn: usize) -> String {
                     std::future::Future::poll(f.as_mut(), &mut cx).map(|o| o.map(|g| *g))
                 }
             };
+            subs[k].cur_pending = r.is_pending();
             match r {
                 Poll::Ready(Some(v)) => format!("R:{}", show(v)),
                 Poll::Ready(None) => "N".into(),
